@@ -14,7 +14,7 @@ use super::load_error::{LoadError, LoadErrorImpl, load_error};
 use super::metadata::{MetadataField, ModelMetadata};
 use super::{Model, ModelOptions, OptimizeMode};
 use crate::constant_storage::{ArcSlice, ArcTensorView, ConstantStorage};
-use crate::graph::{CaptureEnv, ConstantNodeData, Dimension, Graph, NodeId};
+use crate::graph::{CaptureEnv, ConstantNodeData, Dimension, Graph, Node, NodeId};
 use crate::op_registry::rten_registry::{OpLoadContext, convert_dtype};
 use crate::op_registry::{OpRegistry, ReadOpError};
 use crate::optimize::GraphOptimizer;
@@ -256,7 +256,10 @@ fn add_graph_operator(
                 continue;
             }
             let index_usize = node_index as usize;
-            if let Some(node_id) = node_id_from_index.get(&index_usize) {
+            // Operator inputs must refer to values or constants.
+            if let Some(node_id) = node_id_from_index.get(&index_usize)
+                && !matches!(graph.get_node(*node_id), Some(Node::Operator(_)) | None)
+            {
                 inputs.push(Some(*node_id))
             } else {
                 return Err(load_error!(GraphError, name, "operator input is invalid"));
@@ -272,7 +275,10 @@ fn add_graph_operator(
                 continue;
             }
             let index_usize = node_index as usize;
-            if let Some(node_id) = node_id_from_index.get(&index_usize) {
+            // Operator outputs must refer to values.
+            if let Some(node_id) = node_id_from_index.get(&index_usize)
+                && matches!(graph.get_node(*node_id), Some(Node::Value(_)))
+            {
                 outputs.push(Some(*node_id))
             } else {
                 return Err(load_error!(GraphError, name, "operator output is invalid"));
